@@ -14,6 +14,11 @@ ALGOS = ["priority-pool"]
 
 
 def make(family, rng, tier):
+    if family == "many":
+        scn = sysgen.gen_many(rng, "priority-pool", tier)
+        scn["oracles"] = ORACLES
+        scn["defer"] = ["C01.", "C02."]
+        return scn
     if family == "gen":
         scn = sysgen.gen_generated(rng, rng.choice(ALGOS) if ALGOS else None, tier)
     else:
@@ -30,4 +35,4 @@ def make(family, rng, tier):
 
 
 def plan(tier):
-    return [("sys", 5000 if tier == "quick" else 80000)]
+    return [("sys", 5000 if tier == "quick" else 80000), ("many", 6 if tier == "quick" else 100)]
